@@ -3,6 +3,7 @@
 // @also C11 C15
 // @engine B
 // @entry vfh_C02_add_mix
+// @shared_state_watch
 // @tier Q
 // @reach add_mix.done
 // @funcs Phreeqc::add_mix; Phreeqc::add_solution
